@@ -3,7 +3,9 @@
 import json, os, re, sys
 
 root = '/verif/seeded'
-first = json.load(open(os.path.join(root, 'FIRST_RUN.json')))['first_run']
+_fr = json.load(open(os.path.join(root, 'FIRST_RUN.json')))
+first = dict(_fr['first_run'])
+first.update(_fr.get('first_run_round3', {}))
 
 
 def rules_of(meta):
@@ -56,7 +58,8 @@ def table(ids, with_first):
 
 
 all_ids = sorted(d for d in os.listdir(root) if os.path.isdir(os.path.join(root, d)))
-r1 = [d for d in all_ids if not d.startswith('r2-')]
+r1 = [d for d in all_ids if not d.startswith('r2-') and not d.startswith('r3-')]
+r3 = [d for d in all_ids if d.startswith('r3-')]
 r2 = [d for d in all_ids if d.startswith('r2-')]
 which = sys.argv[1] if len(sys.argv) > 1 else 'both'
 if which in ('r1', 'both'):
@@ -65,3 +68,6 @@ if which in ('r1', 'both'):
 if which in ('r2', 'both'):
     print('\n#### Round 2\n')
     table(r2, False)
+if which in ('r3', 'both'):
+    print('\n#### Round 3\n')
+    table(r3, True)
